@@ -2076,10 +2076,11 @@ def slice_notearray_by_time(
         note_array_slice = note_array[active_idx]
 
     if clip_onset_duration and len(active_idx) > 0:
+        slice_offsets = note_array_slice[onset_unit] + note_array_slice[duration_unit]
         psi = np.where(note_array_slice[onset_unit] < start_time)[0]
-        note_array_slice[psi] = start_time
+        note_array_slice[onset_unit][psi] = start_time
         adj_offsets = np.clip(
-            note_array_slice[onset_unit] + note_array_slice[duration_unit],
+            slice_offsets,
             a_min=None,
             a_max=end_time,
         )
